@@ -221,6 +221,8 @@ pub struct CodeOpts {
     pub use_prefix: Option<bool>,
     /// force a single cluster for all contexts
     pub single_cluster: bool,
+    /// force one cluster per context (needs <= 256 contexts)
+    pub distinct_clusters: bool,
 }
 
 fn gen_cluster_map(src: &mut Src, n: usize, single: bool) -> (Vec<u8>, usize) {
@@ -329,7 +331,7 @@ impl EntropyCode {
                     continue;
                 }
             }
-            let (cluster_map, num_clusters) = gen_cluster_map(src, total_ctx, opts.single_cluster || attempt >= 7);
+            let (cluster_map, num_clusters) = if opts.distinct_clusters && total_ctx <= 256 { ((0..total_ctx).map(|c| c as u8).collect(), total_ctx) } else { gen_cluster_map(src, total_ctx, opts.single_cluster || attempt >= 7) };
             // per-cluster maximum value
             let mut cmax = vec![0u32; num_clusters];
             for c in 0..total_ctx {
@@ -725,7 +727,7 @@ pub fn write_cluster_map(w: &mut BitWriter, map: &[u8], src: &mut Src) {
     } else {
         ops = vals.iter().map(|&v| Op::Lit { ctx: 0, value: v as u32 }).collect();
     }
-    let opts = CodeOpts { lz77_min_length: lz, use_prefix: None, single_cluster: false };
+    let opts = CodeOpts { lz77_min_length: lz, use_prefix: None, single_cluster: false, distinct_clusters: false };
     // literal tokens must stay below min_symbol; cluster ids are < 256 so SIMPLE config always works
     let code = EntropyCode::generate(src, 1, &[&ops], &opts);
     if allow_lz {
